@@ -236,13 +236,27 @@ def clean_slate(fam, p, items, s, setref_at=(), user_reset=False, no_initial_ref
                 seed(s, t)
                 b.set_reference(np.array(last_batch, dtype=float))
             fresh = True
+        ea = eb = None
         seed(s, t)
-        feed(fam, a, x)
+        try:
+            feed(fam, a, x)
+        except ValueError as ex:
+            ea = "raised ValueError"
         seed(s, t)
-        feed(fam, b, x)
+        try:
+            feed(fam, b, x)
+        except ValueError as ex:
+            eb = "raised ValueError"
         history.append(x)
         last_batch = x
-        ev.append(step_event(a, b, fresh=fresh, off=off, note="update"))
+        e = step_event(a, b, fresh=fresh, off=off, note="update")
+        if ea or eb:
+            # (CUSUM refuses to go on when the deviation it works with is 0: the long run and its fresh twin must agree on that too)
+            e["a"]["tag"], e["b"]["tag"] = str(ea), str(eb)
+            e["a"]["nums"], e["b"]["nums"] = [], []
+            ev.append(e)
+            break
+        ev.append(e)
     return {"cfg": {"rel": "EqualShifted"}, "ev": ev, "fam": fam, "params": p, "items": items, "seed": s, "setref_at": list(setref_at),
             "user_reset": bool(user_reset), "no_initial_ref": bool(no_initial_ref)}
 
